@@ -37,6 +37,9 @@ N11 single-use new helper     (package level) a method (or module function) that
                              / expression of the call site.  Declined (left as it is) when the helper has early returns
                              the site cannot express, assigns to its parameters, has *args / **kwargs, is a generator,
                              is decorated, or is referenced anywhere else.  Undoes "extract method".
+N12 conditional expression   a statement `t = A if c else B` / `return A if c else B` / `A if c else B` whose conditional
+                             expression the catalogued function does not contain becomes the if/else statement with the
+                             same meaning, so that the path rules see which arm a call sits in.
 N8  dead bookkeeping         (package level) an assignment to an attribute of self / an entry of self.__dict__ whose
                              name occurs nowhere else in the package, with an effect-free right-hand side, is dropped:
                              nothing can observe it.
@@ -305,7 +308,7 @@ def _hash_of(fn):
 
 def entry_for(fn):
     return {"cmp": compares_of(fn), "logs": log_texts(fn), "ifs": if_shapes(fn), "aug": aug_forms(fn), "tests": if_tests(fn),
-            "nested": nested_pairs(fn), "conts": continue_tests(fn), "locks": lock_forms(fn), "hash": _hash_of(fn)}
+            "nested": nested_pairs(fn), "conts": continue_tests(fn), "locks": lock_forms(fn), "hash": _hash_of(fn), "ifexps": ifexp_texts(fn)}
 
 
 def n5_align_augassign(fn, ent):
@@ -880,8 +883,47 @@ def n4_align_else(fn, ent):
     return n
 
 
+def ifexp_texts(fn):
+    return sorted(set(_u(n) for n in ast.walk(fn) if isinstance(n, ast.IfExp)))
+
+
+def n12_lift_new_ifexps(fn, ent):
+    import copy
+    known = set(ent.get("ifexps", ()))
+    n = 0
+    changed = True
+    while changed:
+        changed = False
+        for owner, field, v in list(_all_blocks(fn)):
+            for i, st in enumerate(v):
+                val = st.value if isinstance(st, (ast.Assign, ast.Return, ast.Expr, ast.AugAssign)) else None
+                if not isinstance(val, ast.IfExp) or _u(val) in known:
+                    continue
+
+                def arm(e):
+                    c = copy.copy(st)
+                    if isinstance(st, ast.Assign):
+                        c = ast.Assign(targets=copy.deepcopy(st.targets), value=e)
+                    elif isinstance(st, ast.AugAssign):
+                        c = ast.AugAssign(target=copy.deepcopy(st.target), op=st.op, value=e)
+                    elif isinstance(st, ast.Return):
+                        c = ast.Return(value=e)
+                    else:
+                        c = ast.Expr(value=e)
+                    return ast.copy_location(c, st)
+                if isinstance(st, ast.Assign) and any(not isinstance(t, (ast.Name, ast.Attribute)) for t in st.targets):
+                    continue
+                v[i] = ast.copy_location(ast.If(test=val.test, body=[arm(val.body)], orelse=[arm(val.orelse)]), st)
+                n += 1
+                changed = True
+                break
+            if changed:
+                break
+    return n
+
+
 def _post(fn, ent):
-    ks = {"N9": n9_align_lock_forms(fn, ent), "N5": n5_align_augassign(fn, ent), "N1": n1_orient_compares(fn, ent)}
+    ks = {"N12": n12_lift_new_ifexps(fn, ent), "N9": n9_align_lock_forms(fn, ent), "N5": n5_align_augassign(fn, ent), "N1": n1_orient_compares(fn, ent)}
     ks["N6"] = n6_align_nested(fn, ent)
     ks["N7"] = n7_align_continue(fn, ent)
     ks["N4"] = n4_align_else(fn, ent)
